@@ -110,6 +110,19 @@ static tainted_v<T*> mkptr(uintptr_t addr)
 static std::string addr_s(const void* p) { return std::to_string(reinterpret_cast<uintptr_t>(p)); }
 static std::string addr_s(const volatile void* p) { return std::to_string(reinterpret_cast<uintptr_t>(p)); }
 
+// an adversary that rewrites a pointer cell of sandbox memory right after its representation was fetched
+static uint8_t* g_adv_cell = nullptr;
+static uint8_t g_adv_bytes[8];
+static size_t g_adv_len = 0;
+static bool g_adv_fired = false;
+static void adv_hook(const char* site)
+{
+  if (std::strcmp(site, "be.xlate") != 0 || g_adv_fired) return;
+  g_adv_fired = true;
+  std::memcpy(g_adv_cell, g_adv_bytes, g_adv_len);
+}
+
+
 // --------------------------------------------------------------------- C05
 #ifdef PART_ARITH
 template<typename T, typename N>
@@ -142,17 +155,6 @@ static std::string incdec_forms(const std::string& form, uintptr_t addr)
   else if (form == "postdec") ret = (p--).UNSAFE_unverified();
   else return "HARNESS-ERROR form";
   return "OK ret=" + addr_s(ret) + " obj=" + addr_s((const void*)p.UNSAFE_unverified());
-}
-
-static uint8_t* g_adv_cell = nullptr;
-static uint8_t g_adv_bytes[8];
-static size_t g_adv_len = 0;
-static bool g_adv_fired = false;
-static void adv_hook(const char* site)
-{
-  if (std::strcmp(site, "be.xlate") != 0 || g_adv_fired) return;
-  g_adv_fired = true;
-  std::memcpy(g_adv_cell, g_adv_bytes, g_adv_len);
 }
 
 // arith <ptee> <form> <p> <nk> <n> [plain|tainted|tvol|pcell0|pcellm]
